@@ -34,7 +34,7 @@ RULE = (
     "union of four complete products over the 19 transform-capable classes (EOF, ComplexEOF, SparsePCA, POP, EOFRotator, ComplexEOFRotator; "
     "CPCCA, MCA, CCA, RDA and Complex*; CPCCARotator, MCARotator, ComplexCPCCARotator, ComplexMCARotator; multi.CCA). "
     "(S) structure sweep, one pinned configuration per class: container {DataArray, Dataset, list} x sample dims {1, 2} x sample labels {ascending, unsorted} "
-    "x mask {none, one sample all-NaN, one feature all-NaN, both} x preprocessing {default, center off (single-set), standardize+weights(+coslat) (single- and cross-set)} "
+    "x mask {none, one sample all-NaN, one feature all-NaN, both} x preprocessing {default, center off (single-set), standardize+weights(+coslat) (single- and cross-set), weights alone} "
     "(quick: ascending labels except two plain cases; masks {none, sample, both} (+feature on the plain DataArray); center-off and standardize+weights on unmasked one-sample-dim inputs; "
     "rotators container x mask {none, sample} (+ two sample dims with a missing sample on the DataArray); classes that only fix alpha or are the complex twin of a primary class "
     "(CCA, RDA, ComplexMCA/CCA/RDA, the three Complex rotators): container x mask {none, sample} on one sample dim). "
@@ -44,7 +44,8 @@ RULE = (
     "(P) provenance sweep: {refitted on the same object after a fit on other data, dask input + compute=False then compute(), serialize->deserialize, "
     "rotator_reused = the judged rotator object first rotated another model fitted on other data and answered one transform, "
     "model_reused = fit(other data); transform(other data); fit(judged data) on one object, "
-    "after_rotator = the judged unrotated model (the six classes that have a rotator) was handed to rotator.fit before being asked} x class x container (quick: DataArray, no mask). "
+    "after_rotator = the judged unrotated model (the six classes that have a rotator) was handed to rotator.fit before being asked, "
+    "computed = compute() called on the eagerly fitted object} x preprocessing {default, weights} x class x container (quick: DataArray, no mask; weights with deferred / deserialized / computed). "
     "(L) X/Y-label sweep, every cross-set class incl. rotators: Y's sample labels lagged by 100 (same count, labels disjoint from X's) x sample structure "
     "{one plain dim, two sample dims, pandas MultiIndex on the single sample dim} x mask {none, sample} x container (quick: DataArray; all 12 classes on the two "
     "bookkeeping structures, primary classes also on the plain dim, primary non-rotators with a missing sample on two dims). "
@@ -87,8 +88,8 @@ SECONDARY = ("CCA", "RDA", "ComplexMCA", "ComplexCCA", "ComplexRDA", "ComplexEOF
 
 CONTAINERS = ("DataArray", "Dataset", "list")
 MASKS = ("none", "sample", "feature", "both")
-FLAGS = ("default", "nocenter", "std_w")
-PROVS = ("fresh", "refit", "deferred", "deserialized", "rotator_reused", "model_reused", "after_rotator")
+FLAGS = ("default", "nocenter", "std_w", "w")  # "w": the fit option `weights` alone (non-unit, on the feature grid; per field for cross-set)
+PROVS = ("fresh", "refit", "deferred", "deserialized", "rotator_reused", "model_reused", "after_rotator", "computed")
 ROTATOR_OF = {"EOF": "EOFRotator", "ComplexEOF": "ComplexEOFRotator", "CPCCA": "CPCCARotator", "MCA": "MCARotator", "ComplexCPCCA": "ComplexCPCCARotator", "ComplexMCA": "ComplexMCARotator"}
 
 
@@ -193,7 +194,13 @@ def _structure_cases(tier):
                 for labels in ("ascending", "unsorted"):
                     for mask in MASKS:
                         for flags in FLAGS:
-                            if sdims == "mi":
+                            if flags == "w":
+                                # weights alone: container x sample dims {1,2} x mask {none, sample}; quick: the plain DataArray, every class
+                                if fam == "multi" or labels != "ascending" or sdims == "mi" or mask not in ("none", "sample"):
+                                    continue
+                                if tier == "quick" and not (container == "DataArray" and sdims == 1 and mask == "none"):
+                                    continue
+                            elif sdims == "mi":
                                 # a pandas MultiIndex on the single sample dim: ascending labels, default preprocessing;
                                 # quick: primary classes, DataArray, mask {none, sample}
                                 if labels != "ascending" or flags != "default":
@@ -349,9 +356,13 @@ def _provenance_cases(tier):
                 continue
             for container in (("DataArray",) if tier == "quick" else CONTAINERS):
                 for mask in (("none",) if tier == "quick" else ("none", "sample")):
-                    c = _case("provenance", model, prov=prov, container=container, mask=mask)
-                    if _admissible(c):
-                        out.append(c)
+                    for flags in ("default", "w"):
+                        # user weights are fitted state that every rebuild of the preprocessor must carry along
+                        if flags == "w" and (model == "multi.CCA" or (tier == "quick" and prov not in ("deferred", "deserialized", "computed"))):
+                            continue
+                        c = _case("provenance", model, prov=prov, container=container, mask=mask, flags=flags)
+                        if _admissible(c):
+                            out.append(c)
     return out
 
 
@@ -488,7 +499,7 @@ def build_field(case, seed, role, which="D1"):
         obj, w = xr.Dataset({a.name: a for a in arrays}), xr.Dataset({a.name: a for a in wts})
     else:
         obj, w = list(arrays), list(wts)
-    if case["flags"] != "std_w":
+    if case["flags"] not in ("std_w", "w"):
         w = None
     haslat = all(any(d == "lat" for d, _ in fd) for _, fd in items)
     valid = [k for i, k in enumerate(keys) if not (mask in ("sample", "both") and i == MISSING)]
@@ -501,7 +512,7 @@ def build_field(case, seed, role, which="D1"):
 
 def _flags_kw(case, haslat):
     f = case["flags"]
-    if f == "default":
+    if f in ("default", "w"):
         return dict(center=True, standardize=False, use_coslat=False)
     if f == "nocenter":
         return dict(center=False, standardize=False, use_coslat=False)
@@ -619,8 +630,8 @@ def realize(case, seed):
 
         rcls = getattr(xe.single if fam == "single" else xe.cross, ROTATOR_OF[case["model"]])
         rcls(n_modes=min(3, case["n_modes"]), power=2).fit(m)
-    if prov == "deferred":
-        subject.compute()
+    if prov in ("deferred", "computed"):
+        subject.compute()  # "computed": compute() on an eagerly fitted object (rebuilds its attributes from the serialised tree)
     if prov == "deserialized":
         subject = type(subject).deserialize(subject.serialize())
     info = {}
@@ -852,6 +863,8 @@ def _run(case, seed):
     # one violation per (field, oracle clause): which call forms / normalisations it affects is a feature, the details are in the message
     for (fi, check), lst in sorted(found.items()):
         feats = dict(structure=structure, scope=_scope([c for c, _ in lst], evaluated[fi]))
+        if case["flags"] in ("w", "std_w"):
+            feats["weights"] = True  # fitted with the user's `weights`
         fname = ""
         if fam == "cross":
             feats["alpha_lt_1"] = bool(case["alpha"][fi] < 1.0)  # whitening degree of THIS field
